@@ -1,7 +1,8 @@
 """C04 -- calls in tail position run in constant stack space (run-time half, step lemma).
 
 Encoded (real code): Vm::run_one arms CallAcc, TCallAcc, Enter, VarArg, Ret, PushImmediate, MovImmediate; Stack::*,
-Heap::get / put; LexicalEnvironment for closure callees.
+Heap::get / put; LexicalEnvironment for closure callees; the builtins apply and call/cc (builtin/procedure.rs) reached
+through the BuiltInProc arm of TCALL, Vm::to_continuation.
 Lemma (layout-agnostic, differential): from the same base state, a chain  main -CALL-> c0 -TCALL-> c1 ... -TCALL-> ck
 reaches the body of ck with exactly the machine state (sp, bp, ep, stack contents, acc-independent) that the direct
 call  main -CALL-> ck  with the same arguments reaches it with, and after ck returns both are back in main with the
@@ -35,18 +36,49 @@ def build(fab, chain, direct, name_base=0):
     sym = P.add(f.symbol('x'))
     lam = [P.reserve() for _ in chain]
     clo = []
-    for i, (nform, var, kind, npass) in enumerate(chain):
+    for i, chn in enumerate(chain):
+        nform, var, kind, npass = chn[:4]
         if kind == 'closure':
             env = P.add(f.lexenv([]))
             clo.append(P.add(f.vc('Closure', lam[i], env)))
         else:
             clo.append(lam[i])
+    nil = P.add(f.vc('Nil'))
+    def via(i): return chain[i][4] if len(chain[i]) > 4 else 'tcall'
+    def argvar(i, j): return f.fixnum(z3.BitVec('arg%d_%d' % (i + name_base, j), 64))
+    def split(i):
+        """-> (number of arguments passed as immediates, number passed through heap cells)"""
+        v = via(i)
+        if v.startswith('apply:'):
+            k = int(v[6:]); return k, chain[i][3] - k
+        if v == 'callcc': return 0, 1
+        return chain[i][3], 0
+    def heap_args(i):
+        k, n = split(i)
+        if via(i) == 'callcc': return [nil]               # stands for the continuation object in the direct call
+        return [P.add(argvar(i, j)) for j in range(k, k + n)]
     def args_for(i):
-        return [f.fixnum(z3.BitVec('arg%d_%d' % (i + name_base, j), 64)) for j in range(chain[i][3])]
-    for i, (nform, var, kind, npass) in enumerate(chain):
+        """arguments as the DIRECT / plain call pushes them: immediates, then pointers to heap cells"""
+        k, n = split(i)
+        return [argvar(i, j) for j in range(k)] + [f.ptr(h) for h in heap_args(i)]
+    def transfer(i):
+        """bytecode with which chain[i-1] reaches chain[i] in tail position"""
+        v = via(i)
+        if v == 'tcall': return vmstep.call_seq(f, clo[i], args_for(i), tail=True)
+        if v == 'callcc':
+            bi = P.add(f.builtin('call/cc', BUILTINS['call/cc']))
+            return vmstep.call_seq(f, bi, [f.ptr(clo[i])], tail=True)
+        k, n = split(i)
+        cells = heap_args(i)
+        lst = nil
+        for h in reversed(cells): lst = P.add(f.pair(h, lst))
+        bi = P.add(f.builtin('apply', BUILTINS['apply']))
+        return vmstep.call_seq(f, bi, [f.ptr(clo[i])] + [argvar(i, j) for j in range(k)] + [f.ptr(lst)], tail=True)
+    for i, chn in enumerate(chain):
+        nform, var, kind, npass = chn[:4]
         body = callee_bc(f, (nform, var))
         if i + 1 < len(chain) and not direct:
-            body += vmstep.call_seq(f, clo[i + 1], args_for(i + 1), tail=True)
+            body += transfer(i + 1)
         else:
             body += [f.op('MovImmediate'), f.fixnum(z3.BitVec('result', 64)), f.vc('Acc')]
         body += [f.op('Ret')]
@@ -61,6 +93,28 @@ def build(fab, chain, direct, name_base=0):
     body_start = 2 if chain[-1][1] else 1
     after_call_in_main = len(main_bc) - 1         # index of main's RET
     return vm, last, body_start, m, after_call_in_main
+
+
+def deref(f, vm, v):
+    cells = f.field(f.field(vm, 'Vm', 'heap'), 'Heap', 'heap')
+    n = 0
+    while f.kind(v) == 'Ptr' and n < 8:
+        v = cells[v.f[0]]; n += 1
+    return v
+
+
+def slot_desc(f, vm, v):
+    """what a stack slot holds, independent of heap indices (native comparison)"""
+    k = f.kind(v)
+    if k == 'Ptr':
+        c = deref(f, vm, v)
+        if f.kind(c) == 'Number': return 'ptr->' + vmfab.show_vcell(f, c)
+        return 'ptr->' + ('procedure/other' if f.kind(c) in ('Continuation', 'Nil') else f.kind(c))
+    if k in ('InstructionPointer', 'EnvironmentPointer'): return k
+    return vmfab.show_vcell(f, v)
+
+
+BUILTINS = {}
 
 
 def step_until(it, fab, RUN_ONE, vb, lam, off, limit=300):
@@ -83,7 +137,7 @@ def snapshot(f, vm):
 
 def valid_call(chain):
     """is the observed call well-formed (arity)?  -> True / False"""
-    for nform, var, kind, npass in chain:
+    for nform, var, kind, npass in [c[:4] for c in chain]:
         if var:
             if npass < nform - 1: return False
         elif npass != nform: return False
@@ -93,6 +147,9 @@ def valid_call(chain):
 def make_harness(prog, chain):
     fab = Fab(prog)
     RUN_ONE = prog.resolve_crate('Vm::run_one')
+    if not BUILTINS:
+        from .builtins import builtin_table
+        BUILTINS.update(builtin_table(prog))
 
     def harness(it):
         f = fab
@@ -115,14 +172,23 @@ def make_harness(prog, chain):
         for i, (x, y) in enumerate(zip(st['stack'], sd['stack'])):
             kx, ky = f.kind(x), f.kind(y)
             if kx != ky: return viol(it, 'stack slot %d is %s through the chain, %s directly' % (i, kx, ky), 'frame-differs')
-            if kx in ('InstructionPointer', 'Ptr', 'EnvironmentPointer'):
-                continue          # return address / heap pointers: heap indices differ between the two images by construction
+            if kx == 'Ptr':
+                # heap indices differ between the two images by construction: compare what they point at when both are numbers
+                cx, cy = deref(f, tb.v, x), deref(f, db.v, y)
+                if f.kind(cx) == 'Number' and f.kind(cy) == 'Number' and not it.must(values_equal(it, cx, cy)):
+                    return viol(it, 'stack slot %d points at %r through the chain, %r directly' % (i, cx, cy), 'frame-differs')
+                if (f.kind(cx) == 'Number') != (f.kind(cy) == 'Number') and 'callcc' not in str(chain):
+                    return viol(it, 'stack slot %d points at a %s through the chain, a %s directly' % (i, f.kind(cx), f.kind(cy)), 'frame-differs')
+                continue
+            if kx in ('InstructionPointer', 'EnvironmentPointer'):
+                continue          # return address: heap indices differ between the two images by construction
             if not it.must(values_equal(it, x, y)):
                 return viol(it, 'stack slot %d differs: %r through the chain, %r directly' % (i, x, y), 'frame-differs')
         # variadic callee: the rest list must hold the same values
         if chain[-1][1]:
             rest_t = rest_list(it, f, tb.v, st); rest_d = rest_list(it, f, db.v, sd)
-            if len(rest_t) != len(rest_d) or not all(it.must(values_equal(it, x, y)) for x, y in zip(rest_t, rest_d)):
+            by_kind = len(chain[-1]) > 4 and chain[-1][4] == 'callcc'     # the continuation object: compared by position only
+            if len(rest_t) != len(rest_d) or not (by_kind or all(it.must(values_equal(it, x, y)) for x, y in zip(rest_t, rest_d))):
                 return viol(it, 'rest-argument list differs: %r vs %r' % (rest_t, rest_d), 'frame-differs')
         # run both back into main
         rt2 = step_until(it, f, RUN_ONE, tb, m, after)
@@ -184,7 +250,9 @@ def native_verdict(prog, replay, req):
             ip = fab.field(vm2, 'Vm', 'ip')
             if status.startswith('ERR'): return ('err', status)
             if ip.f[0] == last and ip.f[1] == off:
-                return ('at', fab.field(fab.field(vm2, 'Vm', 'stack'), 'Stack', 'sp'))
+                st = fab.field(vm2, 'Vm', 'stack')
+                sp = fab.field(st, 'Stack', 'sp')
+                return ('at', sp, [slot_desc(fab, vm2, x) for x in list(fab.field(st, 'Stack', 'stack'))[:sp + 1]])
             if status == 'HALT': return ('halt', n)
         return ('limit',)
     rt = run(chain, False); rd = run([chain[-1]], True)
@@ -192,11 +260,15 @@ def native_verdict(prog, replay, req):
     if rt[0] != rd[0]: return True, 'chain reaches the callee with %s, direct call with %s' % (rt, rd)
     if rt[0] == 'at' and rt[1] != rd[1]:
         return True, 'stack height at the callee body: %d through the tail-call chain %s, %d through a direct call' % (rt[1], chain, rd[1])
-    return False, 'same stack height through the chain and directly: %s' % (rt,)
+    if rt[0] == 'at' and rt[2] != rd[2]:
+        diff = [(i, a, b) for i, (a, b) in enumerate(zip(rt[2], rd[2])) if a != b]
+        return True, 'frame at the callee body differs (slot, through the chain %s, directly): %s' % (chain, diff[:3])
+    return False, 'same stack height and frame through the chain and directly: %s' % (rt[:2],)
 
 
 FUNCTIONS = ['vm::run::Vm::run_one (CallAcc, TCallAcc, Enter, VarArg, Ret, PushImmediate, MovImmediate, Halt)', 'vm::run::Vm::{read_opcode,read_operand,store_operand,lambda,build_lexical_environment}',
-             'vm::stack::Stack::{push,pop,get,get_mut,get_offset,get_offset_mut,get_sp,get_sp_mut}', 'vm::heap::Heap::{get,put,get_at_index,alloc}', 'vm::vcell::VCell::as_*']
+             'vm::stack::Stack::{push,pop,get,get_mut,get_offset,get_offset_mut,get_sp,get_sp_mut}', 'vm::heap::Heap::{get,put,get_at_index,alloc}', 'vm::vcell::VCell::as_*',
+             'vm::builtin::procedure::{apply,call_cc}', 'vm::builtin::pop_argc', 'vm::continuation::Vm::to_continuation', 'vm::vcell::BuiltInProc::eval']
 
 
 def plans(tier):
@@ -221,7 +293,27 @@ def plans(tier):
     for a in range(0, N + 1):
         for b in range(0, N + 1):
             out.append([(1, False, 'lambda', 1), (a, False, 'lambda', a), (b, False, 'closure' if (a + b) % 2 else 'lambda', b)])
+    # tail calls made through apply: k arguments passed directly, the rest through the list (every split), fixed and variadic callee
+    for nf in range(0, N + 1):
+        for ng in range(0, N + 1):
+            for k in range(0, ng + 1):
+                out.append([(nf, False, 'lambda', nf), (ng, False, 'closure' if (nf + k) % 2 else 'lambda', ng, 'apply:%d' % k)])
+    for nform in range(1, N + 2):
+        for npass in range(0, N + 2):
+            for k in sorted({0, npass // 2, npass}):
+                out.append([(1, False, 'lambda', 1), (nform, True, 'lambda', npass, 'apply:%d' % k)])
+    # apply after a plain tail call, and a plain tail call after apply
+    for a in range(0, N + 1):
+        out.append([(1, False, 'lambda', 1), (a, False, 'lambda', a), (2, False, 'lambda', 2, 'apply:1')])
+        out.append([(1, False, 'lambda', 1), (2, False, 'lambda', 2, 'apply:0'), (a, False, 'lambda', a)])
+    # tail calls made through call/cc: the receiver runs in the frame of the caller of call/cc
+    for nf in range(0, N + 1):
+        for kind in kinds:
+            out.append([(nf, False, 'lambda', nf), (1, False, kind, 1, 'callcc')])
+        out.append([(nf, False, 'lambda', nf), (1, True, 'lambda', 1, 'callcc')])
+    out.append([(1, False, 'lambda', 1), (2, False, 'lambda', 1, 'callcc')])      # receiver of the wrong arity: same error both ways
     # arity errors surface identically
+    out.append([(1, False, 'lambda', 1), (2, False, 'lambda', 1, 'apply:0')])
     out.append([(1, False, 'lambda', 1), (2, False, 'lambda', 1)])
     return out
 
@@ -231,7 +323,7 @@ def run(chk, ws, prog, tier, replays):
     models_vm.install(prog)
     seen = {}
     for chain in plans(tier):
-        name = 'tail-chain/' + '->'.join('%s%d%s(%d)' % (k[0], n, '+' if v else '', p) for n, v, k, p in chain)
+        name = 'tail-chain/' + '->'.join('%s%s%d%s(%d)' % ((c[4] + '>') if len(c) > 4 else '', c[2][0], c[0], '+' if c[1] else '', c[3]) for c in chain)
         h = make_harness(prog, chain)
         res = explore(prog, h, opts={'on_panic': on_panic, 'render_fmt': False}, quiet=True)
         print('  harness %-46s %s' % (name, res.summary()), flush=True)
@@ -245,8 +337,9 @@ def run(chk, ws, prog, tier, replays):
     chk.extra['rule'] = ('one completed path per shape (the frame arithmetic of CALL/TCALL/ENTER/VARARG/RET does not branch on argument values); evaluations = MIR paths; '
                          'argument values are solver variables compared with must-queries; distinct_nontrivial = shapes whose two runs were compared slot by slot')
     chk.assumptions += ['the compile-time half (which expressions are compiled to TCALL, the prelude derived forms) is outside the claim: a compiler or prelude change that drops a tail call is NOT detected',
-                        'induction from one tail call to n tail calls is argued, not solver-checked', 'apply / call/cc / eval in tail position are outside']
-    chk.outside += ['argument counts above %d' % (2 if tier == 'quick' else 3), 'tail calls through apply, call/cc, eval']
+                        'induction from one tail call to n tail calls is argued, not solver-checked', 'apply and call/cc in tail position are covered through the real builtins (apply with every split between direct and list arguments); eval in tail position is outside (it runs the compiler)',
+                        'the continuation object passed by call/cc is compared by kind only (its contents are the subject of C05)']
+    chk.outside += ['argument counts above %d' % (2 if tier == 'quick' else 3), 'tail calls through eval']
 
 
 def replay_request(req, replays):
